@@ -725,7 +725,9 @@ void token_split_on_char(token * t, const char * source, const char c) {
 
 			t->next = new;
 
-			t->len = pos;
+			// pos counts from the start of the original token, which
+			// is not where `t` starts once the first split is done
+			t->len = start + pos - t->start;
 
 			t = t->next;
 		}
